@@ -123,3 +123,38 @@ Proof.
   - destruct (f (parent p)) as [[?|]|]; try discriminate.
     destruct (ro (parent p)); [discriminate|]. injection H as <-. split; [reflexivity|]. now left.
 Qed.
+
+(* a regular file where a directory is needed makes MkdirAll fail *)
+Lemma mk_down_file_blocks ro : forall rest f fresh cur pre suf c,
+  rest = pre ++ suf -> pre <> [] -> f (cur ++ pre) = Some (File c) ->
+  fst (mk_down ro f fresh cur rest) = false.
+Proof.
+  induction rest as [|s r IH]; intros f fresh cur pre suf c E N Hf.
+  - destruct pre; [congruence | discriminate].
+  - destruct pre as [|s' pre']; [congruence|]. simpl in E. injection E as <- E.
+    simpl. destruct pre' as [|s2 pre2].
+    + rewrite Hf. reflexivity.
+    + assert (Hf' : f ((cur ++ [s]) ++ s2 :: pre2) = Some (File c)) by (now rewrite <- app_assoc).
+      destruct (f (cur ++ [s])) as [[c0|]|] eqn:E1.
+      * reflexivity.
+      * eapply IH; eauto. discriminate.
+      * destruct (negb fresh && ro cur); [reflexivity|].
+        eapply IH with (pre := s2 :: pre2); eauto; [discriminate|].
+        rewrite upd_other; [exact Hf'|].
+        intros X. apply (f_equal (@length str)) in X. rewrite !app_length in X. simpl in X. lia.
+Qed.
+
+Lemma mkdir_all_file_blocks ro f d a c :
+  is_prefix a d = true -> a <> [] -> f a = Some (File c) -> fst (mkdir_all ro f d) = false.
+Proof.
+  intros P N Hf. apply is_prefix_spec in P. destruct P as [r ->].
+  unfold mkdir_all. eapply mk_down_file_blocks with (pre := a); eauto.
+Qed.
+
+Lemma strict_prefix_parent a p : strict_prefix a p = true -> is_prefix a (parent p) = true.
+Proof.
+  intros H. apply strict_prefix_spec in H. destruct H as (r & N & ->).
+  apply is_prefix_spec. unfold parent.
+  destruct r as [|x r] using rev_ind; [congruence|].
+  exists r. now rewrite app_assoc, removelast_last.
+Qed.
